@@ -23,7 +23,7 @@ pub enum X {
 
 pub const BASES: u64 = 6;
 pub const DGRAMS: u64 = 10;
-pub const JMAX: u64 = 3300;
+pub const JMAX: u64 = 3308;
 pub const ENUM_SPACE: u64 = BASES * DGRAMS * JMAX;
 
 #[derive(Clone, Debug)]
@@ -35,6 +35,9 @@ enum Mutation {
     Misdeliver(usize),
     Remask(usize),
     SpoofSource,
+    /// insert junk bytes behind the auth-data and patch the (masked) authdata-size field to cover
+    /// them: XOR in the masked domain flips the same bits in the clear, so no key is needed
+    GrowAuthData(usize),
     None,
 }
 
@@ -156,11 +159,14 @@ async fn run_async(ctx: &mut Ctx, enumerate: bool) {
                         Mutation::Truncate((jsel - 8 * l) as usize)
                     } else if jsel < 10 * l {
                         Mutation::Insert((jsel - 9 * l) as usize, 0xA5)
+                    } else if jsel < 10 * l + 8 {
+                        Mutation::GrowAuthData(1 + (jsel - 10 * l) as usize)
                     } else {
                         Mutation::None
                     }
                 } else {
-                    match ctx.tape.choose(9) {
+                    match ctx.tape.choose(10) {
+                        9 => Mutation::GrowAuthData(1 + ctx.tape.choose(12) as usize),
                         0 | 1 => Mutation::FlipBit(ctx.tape.choose(len as u32 * 8) as usize),
                         2 => Mutation::Truncate(ctx.tape.choose(len as u32) as usize),
                         3 => Mutation::Insert(ctx.tape.choose(len as u32 + 1) as usize, ctx.tape.choose(256) as u8),
@@ -204,6 +210,22 @@ async fn run_async(ctx: &mut Ctx, enumerate: bool) {
                     Mutation::Remask(n) => match &rec.dec {
                         Some(d) => (toolkit::encode_packet(d.iv, d.message_nonce, d.kind.clone(), d.message.clone(), &w.nodes[*n].id), *n, rec.src, "remask_for_other_node"),
                         None => (rec.bytes.clone(), *n, rec.src, "misdeliver"),
+                    },
+                    Mutation::GrowAuthData(k) => match &rec.dec {
+                        Some(d) => {
+                            let auth_len = rec.bytes.len() - 16 - 23 - d.message.len();
+                            let new_len = auth_len + k;
+                            let mut v = rec.bytes.clone();
+                            let x = (auth_len as u16) ^ (new_len as u16);
+                            v[16 + 21] ^= (x >> 8) as u8;
+                            v[16 + 22] ^= (x & 0xff) as u8;
+                            let at = 16 + 23 + auth_len;
+                            for i in 0..*k {
+                                v.insert(at + i, 0x3c ^ i as u8);
+                            }
+                            (v, to, rec.src, "grow_auth_data")
+                        }
+                        None => (rec.bytes.clone(), to, rec.src, "grow_auth_data"),
                     },
                     Mutation::SpoofSource => {
                         let other = (from + 1 + (to == (from + 1) % 3) as usize) % 3;
